@@ -723,7 +723,10 @@ class C17(Prop):
         cxs = complexes(N)
         if tier == 'quick': cxs = cxs[::2]
         elif len(cxs) > 2500: cxs = cxs[:167] + rnd.sample(cxs[167:], 2000)
-        VALS = ['i3', 's%22z%22', 's%5B1%2C2%5D', 's%7B%22k%22%3A%7B%7D%7D', 's%22%5Cu00e9%22', 'snull', 'strue', 's1.5', 's%5B%5D']
+        VALS = ['i3', 's%22z%22', 's%5B1%2C2%5D', 's%7B%22k%22%3A%7B%7D%7D', 's%22%5Cu00e9%22', 'snull', 'strue', 's1.5', 's%5B%5D',
+                # attribute values that look like (parts of) an encoded complex but carry no marker: plain JSON data
+                's%7B%22simplices%22%3A%5B%5D%7D',
+                's%7B%22__version__%22%3A%220.1%22%2C%22simplices%22%3A%5B%7B%22attributes%22%3A%7B%7D%2C%22faces%22%3A%5B%5D%2C%22id%22%3A1%7D%5D%7D']
         for ci, cx in enumerate(cxs):
             scheme = ('int', 'str', 'jmix')[ci % 3]
             if scheme == 'jmix':
@@ -879,6 +882,19 @@ class C19(Prop):
                         lines += ['q c integrate sheight %d' % d, 'check c19 c sheight %d' % d]
                         cnt += 1
             lines += ['q a euler']
+            scripts.append(lines)
+        # the integral of a filtration is the integral of the complex at its current index
+        from harness.props3 import filtration_history, INDEX_SET
+        for i in range(10 if tier == 'quick' else 200):
+            lines, st = filtration_history(rnd, rnd.randint(6, 14), checks=False, pool=[1, 2, 3, 4, 5])
+            w_ = impl.ImplWorld()
+            for l in lines: w_.exec(l)
+            f_ = w_.vars['f']
+            for p_ in [x for x in impl.SimplicialComplex.simplices(f_) if impl.SimplicialComplex.orderOf(f_, x) == 0]:
+                if rnd.random() < 0.8:
+                    lines.append('! setattr f %s sheight i%d' % (tok(p_), rnd.randint(0, 3)))
+            for q_ in rnd.sample(INDEX_SET, 3):
+                lines += ['! setindex f q%d' % q_, 'check c19 f sheight %d' % rnd.choice([0, 2])]
             scripts.append(lines)
         n = 20 if tier == 'quick' else 500
         for i in range(n):
